@@ -84,6 +84,9 @@ open_("C18", "D42", "C06/exit", ["C06/stdout", "C18/proxied-argv-differs"],
 open_("C18", "D44", "C06/exit", ["C06/stdout", "C18/proxied-argv-differs"],
       "command line: `git --version status -s` (likewise `-v ...`) => plain git runs `git version status -s` and fails with exit 129 (unknown switch); the proxy re-emits just `version`, drops every trailing argument and exits 0",
       "c18.version_option_drops_trailing_arguments", ["version_with_trailing_args", "tmpl:--version status", "tmpl:-v log"], affects=["C06"])
+open_("C15", "D16", "C15/strict-notes-differ@commit1", ["C15/strict-notes-differ@commit2"],
+      "history: commit 1 adds AI lines 5-6 to f.txt (S1), commit 2 adds AI line 2 to f.txt (S2), upstream touches only g.txt; `git rebase main` => the shortcut copies the commit-scoped notes (f.txt: S1 5-6 / f.txt: S2 2), the full replay writes cumulative notes (commit 1 also carries S2's prompt record, commit 2 also lists S1's lines 6-7 which it did not add); equal after projecting onto the lines each commit adds",
+      "c15.two_commit_rebase_same_file_strict_vs_replay", ["slow_path_strict_notes"])
 # ---------------------------------------------------------------- C02
 open_("C02", "D20", "C03/unsound-note@f.txt:12", [],
       "history: feature branch = [person replaces 2 lines of f.txt by 1; AI session S1 modifies line 5 of f.txt]; upstream inserts 2 AI lines after line 1 and then 5 human lines after line 5 of f.txt; `git rebase main` (no conflict) => the rewritten AI commit's note lists line 12 (text written by a person) as S1: the full rebase replay mis-places attributions when upstream changed the same file",
